@@ -233,6 +233,62 @@ class Seq:
             self.lptr = {k2: v2 for k2, v2 in self.lptr.items() if v2[0] != c}
             self.lptr[l4] = (c, d["epoch"], nv)
 
+    def script_view(self, c, name, v, cls):
+        """what a script parsed now sees of the host-stored variable `name`: its type, its value, and an expression that needs that type"""
+        k = v[0] if v[0] != "null" else v[1]
+        tn = {"b": "boolean", "i": "integer", "n": "decimal", "s": "string", "x": "bytes", "m": "complex"}[k]
+        texts = [("typeof(%s)" % name.lower(), "val s:" + tn.encode().hex())]
+        if v[0] != "null" and self.lit(v) is not None and not (v[0] == "n" and bits2d(v[1]) != bits2d(v[1])):
+            texts.append(("%s == %s" % (name.lower(), self.lit(v)), "val b:1"))
+            use = {"s": "upper(%s) == upper(%s)", "i": "(%s + 0) == %s", "n": "(%s + 0.0) == %s", "b": "(%s and true) == %s"}[k]
+            texts.append((use % (name.lower(), self.lit(v)), "val b:1"))
+        for t, want in texts:
+            eid = self.ne; self.ne += 1
+            self.expect("pexpr %d %d %s" % (c, eid, (t + "\n").encode("latin-1").hex()), "ok", cls + "|parse"); self.bump(c)
+            lid = self.nl; self.nl += 1
+            self.expect("eval %d %d %d" % (c, eid, lid), "ok", cls + "|eval"); self.bump(c)
+            self.expect("dumpv L%d" % lid, want, cls + "|" + t.split("(")[0].split(" ")[0].replace(name.lower(), "v"))
+            self.expect("efree %d" % eid, "ok", "free")
+
+    def a_retype(self, c):
+        """the host registers a name again with another type (before or after a purge): scripts parsed afterwards see the type and the
+        value the host stored last, whatever was registered under that name or that slot before"""
+        r = self.r; d = self.ctx[c]
+        def scalar():
+            while True:
+                v = self.rnd_value()
+                if v[0] in ("b", "i", "n", "s", "x"): return v
+        self.nrt = getattr(self, "nrt", 0) + 1
+        X = "RX%d" % self.nrt; Y = r.choice([X, "RY%d" % self.nrt])
+        v1 = scalar()
+        while True:
+            v2 = scalar()
+            if v2[0] != v1[0]: break
+        def reg_store(name, v, store=True):
+            sid = self.ns; self.ns += 1
+            self.expect("sym_reg %d %d %s %d 0" % (c, sid, name.encode().hex(), MAJ[v[0]]), "ok", "symbol"); self.bump(c)
+            d["syms"][name] = sid
+            if store:
+                vid = self.create(v)
+                self.expect("store %d %d %d" % (c, sid, vid), "1", "store")
+                d["vars"][name] = v; self.vals[vid] = "moved"
+                self.expect("v_free %d" % vid, "ok", "free"); del self.vals[vid]
+        reg_store(X, v1, store=r.random() < 0.6)
+        if r.random() < 0.3: self.script_view(c, X, v1, "retype|first") if X in d["vars"] else None
+        reg_store(X, v2)
+        if r.random() < 0.5: self.script_view(c, X, v2, "retype|second")
+        if r.random() < 0.7:
+            self.a_purge(c, reuse=False)
+            v3 = scalar()
+            reg_store(Y, v3)
+            if r.random() < 0.5:
+                eid = self.ne; self.ne += 1
+                self.expect("pexpr %d %d %s" % (c, eid, b"1\n".hex()), "ok", "parse"); self.bump(c)
+                self.expect("efree %d" % eid, "ok", "free")
+            self.script_view(c, Y, v3, "retype|after-purge")
+        self.lptr = {k2: v2_ for k2, v2_ in self.lptr.items() if v2_[0] != c}
+        self.had_roundtrip = True
+
     def a_script_write(self, c):
         r = self.r; d = self.ctx[c]
         name = r.choice(["sa", "sb", "sc"])
@@ -401,6 +457,11 @@ class Seq:
         srcs = [nm for nm in d["vars"] if not nm.startswith("QQ") and not nm.startswith("WW")][:4]
         readers = "".join("qq%d_%d = %s; ww%d_%d = %s;" % (tagc, i, nm.lower(), tagc, i, nm.lower()) for i, nm in enumerate(srcs))
         self.expect("pexec %d %d %s" % (c, xid, ('cl = 77; ' + readers + ' print "in clone";').encode().hex()), "ok", "parse"); self.bump(c)
+        # a function defined in the original (several body statements) and a program calling it, both compiled before the clone is taken
+        fn = "cf%d" % tagc; xdef = self.nx; self.nx += 1; xcall = self.nx; self.nx += 1
+        self.expect("pexec %d %d %s" % (c, xdef, ("function %s(n:integer) return integer is begin s = 0; for i in 1 to n loop s = s + i; end loop; return s; end;" % fn).encode().hex()), "ok", "parse"); self.bump(c)
+        self.expect("exec %d" % xdef, "1", "run"); self.bump(c)
+        self.expect("pexec %d %d %s" % (c, xcall, ("fr%d = %s(10); print fr%d;" % (tagc, fn, tagc)).encode().hex()), "ok", "parse"); self.bump(c)
         n = self.nctx; self.nctx += 1
         self.expect("ctx_clone %d %d" % (c, n), "ok", "clone")
         self.ctx[n] = {"vars": dict(d["vars"]), "syms": {}, "alive": True, "epoch": 0, "parent": c, "purged": False}
@@ -432,9 +493,33 @@ class Seq:
         for i, name in enumerate(srcs):
             self.ctx[n]["vars"]["QQ%d_%d" % (tagc, i)] = d["vars"][name]; self.ctx[n]["vars"]["WW%d_%d" % (tagc, i)] = d["vars"][name]
         self.expect("xfree %d" % xid, "ok", "free")
+        # a stop request is private to the context it was made on: with a stop pending on the ORIGINAL, the clone still runs the
+        # function (through an executable compiled by the original and through an expression of its own); with a stop pending on
+        # the CLONE, a program run for the clone prints nothing while the original still computes
+        mode = self.r.choice(["none", "orig-stopped", "clone-stopped"])
+        def call_by_expr(cc, cls):
+            eid = self.ne; self.ne += 1
+            self.expect("pexpr %d %d %s" % (cc, eid, ("%s(10)\n" % fn).encode().hex()), "ok", "parse"); self.bump(cc)
+            lid = self.nl; self.nl += 1
+            self.expect("eval %d %d %d" % (cc, eid, lid), "ok", "eval"); self.bump(cc)
+            self.expect("dumpv L%d" % lid, "val i:55", cls)
+            self.expect("efree %d" % eid, "ok", "free")
+        if mode == "orig-stopped": self.expect("brk %d" % c, "ok", "break")
+        if mode == "clone-stopped":
+            self.expect("brk %d" % n, "ok", "break")
+            self.expect("exec2 %d %d" % (n, xcall), "1", "run"); self.bump(n)
+            self.expect("out %d" % n, "out ", "clone|break-stops-run")
+            call_by_expr(c, "clone|stop-of-clone-reaches-original")
+            self.expect("rstop %d" % n, "ok", "reset")
+        self.expect("exec2 %d %d" % (n, xcall), "1", "run"); self.bump(n)
+        self.expect("out %d" % n, "out " + b"55\n".hex(), "clone|function-call|" + mode)
+        call_by_expr(n, "clone|function-call-by-expression|" + mode)
+        if mode == "orig-stopped": self.expect("rstop %d" % c, "ok", "reset")
+        self.ctx[n]["vars"]["FR%d" % tagc] = ("i", 55)
+        self.expect("xfree %d" % xcall, "ok", "free"); self.expect("xfree %d" % xdef, "ok", "free")
         return n
 
-    def a_purge(self, c):
+    def a_purge(self, c, reuse=True):
         d = self.ctx[c]
         for xid, cc in list(self.execs.items()):
             if cc == c:
@@ -445,7 +530,7 @@ class Seq:
             self.expect("sym_find %d %d %s" % (c, sid, name.encode().hex()), "NULL", "purge|symbol-survived")
         d["vars"] = {}; d["syms"] = {}
         # the purged context is reusable
-        self.a_script_write(c)
+        if reuse: self.a_script_write(c)
 
     def finish(self):
         r = self.r
@@ -474,8 +559,9 @@ class Seq:
             elif k < 0.80: self.a_return_untaken(c)
             elif k < 0.85: self.a_break(c)
             elif k < 0.91 and len(cs) < 4: self.a_clone(c)
-            elif k < 0.95: self.a_purge(c)
-            elif k < 0.98 and len(cs) > 1:
+            elif k < 0.93: self.a_purge(c)
+            elif k < 0.955: self.a_retype(c)
+            elif k < 0.985 and len(cs) > 1:
                 for xid, cc in list(self.execs.items()):
                     if cc == c: self.expect("xfree %d" % xid, "ok", "free"); del self.execs[xid]
                 self.expect("ctx_free %d" % c, "ok", "free"); self.ctx[c]["alive"] = False
